@@ -35,6 +35,7 @@ type GhostUpdate struct {
 	E      Expr
 	Src    string
 	Hits   int
+	Dead   bool // the anchor text occurs nowhere in the function
 }
 
 type AssertAt struct {
@@ -44,6 +45,7 @@ type AssertAt struct {
 	E      Expr
 	Src    string
 	Hits   int
+	Dead   bool // anchor (or a ghost snapshot it mentions) is gone: the lemma is dropped
 }
 
 type Contract struct {
